@@ -13,7 +13,9 @@ class C02(C01):
   aspects = ("bubble", "error")
   rule = ("Hypothesis-generated charts with per-state reactions handle / transition / decline "
           "(returns UNHANDLED) / counter guard / absent, x start state x event list x host "
-          "(plain, instrumented, queued on/off, decorated or not). Oracle: the ordered list of "
+          "(plain, instrumented, queued on/off, decorated or not); some guards consult "
+          "chart.is_in() before answering and is_in/child_state queries are interleaved between "
+          "events. Oracle: the ordered list of "
           "states that were offered the user signal equals the reference model's path from the "
           "current state to the answering state; if the answer is 'handled' or nobody answers, "
           "no entry/exit/init action runs and the resting state is unchanged. Non-trivial: a "
@@ -26,7 +28,7 @@ class C02(C01):
 
   def strategy(self, tier):
     hosts = st.sampled_from(["plain", "instr", "queued", "queued_off"])
-    base = chartgen.chart_case(max_events=12)
+    base = chartgen.chart_case(max_events=12, with_is_in=True, with_queries=True)
     return st.tuples(base, hosts).map(lambda t: dict(t[0], host=t[1]))
 
   def classify(self, case, reports, model):
